@@ -4,8 +4,10 @@ package vsim
 
 import (
 	"fmt"
+	"reflect"
 	"sort"
 	"strings"
+	"time"
 
 	"github.com/gammazero/nexus/v3/wamp"
 )
@@ -379,6 +381,90 @@ func (m *MRealm) Meta(s int, req wamp.ID, proc string, args wamp.List, kw wamp.D
 			}), nil
 		}
 		return res("sessions:" + sortedJoin(ids)), plain(func(b *Binder, r *wamp.Result) string { return "sessions:" + idsText("sess", b, arg0(r)) }), nil
+	case "wamp.subscription.get_events":
+		r0, ok := ref(0, "S")
+		sub := m.subBySym(r0.Sym)
+		if !ok || sub == nil || sub.Hist == nil {
+			// unknown subscription or one without history: an empty answer or an error are both acceptable
+			return res("events:[]") + "|" + metaErr(req, "wamp.error.no_such_subscription") + "|" + metaErr(req, "wamp.error.invalid_argument"), histRender(req), nil
+		}
+		f, bad := parseHistFilter(kw, refs)
+		if bad {
+			return metaErr(req, "wamp.error.invalid_argument"), nil, nil
+		}
+		var sel []mHistEntry
+		started := f.fromPub == 0
+		for _, e := range sub.Hist.Entries {
+			if f.fromPub != 0 && e.PubSym == f.fromPub {
+				started = true
+			}
+			if !started {
+				continue
+			}
+			sel = append(sel, e)
+		}
+		if f.afterPub != 0 {
+			var t []mHistEntry
+			seen := false
+			for _, e := range sel {
+				if seen {
+					t = append(t, e)
+				}
+				if e.PubSym == f.afterPub {
+					seen = true
+				}
+			}
+			sel = t
+		}
+		if f.beforePub != 0 {
+			for i, e := range sel {
+				if e.PubSym == f.beforePub {
+					sel = sel[:i]
+					break
+				}
+			}
+		}
+		if f.untilPub != 0 {
+			for i, e := range sel {
+				if e.PubSym == f.untilPub {
+					sel = sel[:i+1]
+					break
+				}
+			}
+		}
+		var t []mHistEntry
+		for _, e := range sel {
+			if f.hasFrom && e.T < f.from {
+				continue
+			}
+			if f.hasAfter && e.T <= f.after {
+				continue
+			}
+			if f.hasBefore && e.T >= f.before {
+				continue
+			}
+			if f.hasUntil && e.T > f.until {
+				continue
+			}
+			if f.topic != "" && e.Topic != f.topic {
+				continue
+			}
+			t = append(t, e)
+		}
+		sel = t
+		if f.limit > 0 && len(sel) > f.limit {
+			sel = sel[len(sel)-f.limit:] // the most recent ones
+		}
+		if f.reverse {
+			for i, j := 0, len(sel)-1; i < j; i, j = i+1, j-1 {
+				sel[i], sel[j] = sel[j], sel[i]
+			}
+		}
+		var parts []string
+		for _, e := range sel {
+			parts = append(parts, fmt.Sprintf("%s:%s:%s", symP(e.PubSym), e.Topic, payload(e.Args, e.Kw)))
+		}
+		return res("events:[" + strings.Join(parts, " ") + "]"), histRender(req), nil
 	case "wamp.session.add_testament":
 		if len(args) < 3 {
 			return metaErr(req, "wamp.error.invalid_argument"), nil, nil
@@ -417,4 +503,130 @@ func (m *MRealm) Meta(s int, req wamp.ID, proc string, args wamp.List, kw wamp.D
 		return res("ok"), plain(func(b *Binder, r *wamp.Result) string { return "ok" }), nil
 	}
 	return metaErr(req, "wamp.error.no_such_procedure"), nil, nil
+}
+
+type histFilter struct {
+	limit                                   int
+	reverse                                 bool
+	from, after, before, until              int64
+	hasFrom, hasAfter, hasBefore, hasUntil  bool
+	topic                                   string
+	fromPub, afterPub, beforePub, untilPub  int
+}
+
+// HistEpoch is the virtual-clock origin in Unix ms (set by the harness).
+var HistEpoch int64
+
+func parseHistFilter(kw wamp.Dict, refs map[int]MetaRef) (f histFilter, bad bool) {
+	if v, ok := kw["limit"]; ok {
+		n, isNum := wamp.AsInt64(v)
+		if !isNum || n < 1 {
+			return f, true
+		}
+		f.limit = int(n)
+	}
+	if v, ok := kw["reverse"]; ok {
+		b, isB := v.(bool)
+		if !isB {
+			return f, true
+		}
+		f.reverse = b
+	}
+	tm := func(key string) (int64, bool, bool) {
+		v, ok := kw[key]
+		if !ok {
+			return 0, false, false
+		}
+		str, isS := v.(string)
+		if !isS {
+			return 0, false, false // not a string: ignored
+		}
+		t, err := time.Parse(time.RFC3339, str)
+		if err != nil {
+			return 0, false, true
+		}
+		return t.UnixMilli() - HistEpoch, true, false
+	}
+	var b1, b2, b3, b4 bool
+	f.from, f.hasFrom, b1 = tm("from_time")
+	f.after, f.hasAfter, b2 = tm("after_time")
+	f.before, f.hasBefore, b3 = tm("before_time")
+	f.until, f.hasUntil, b4 = tm("until_time")
+	if b1 || b2 || b3 || b4 {
+		return f, true
+	}
+	if s, ok := kw["topic"].(string); ok {
+		f.topic = s
+	}
+	// publication bounds are passed in model terms through refs 100..103
+	if r, ok := refs[100]; ok {
+		f.fromPub = r.Sym
+	}
+	if r, ok := refs[101]; ok {
+		f.afterPub = r.Sym
+	}
+	if r, ok := refs[102]; ok {
+		f.beforePub = r.Sym
+	}
+	if r, ok := refs[103]; ok {
+		f.untilPub = r.Sym
+	}
+	return f, false
+}
+
+// histRender renders the events of a get_events RESULT: local clients get the
+// router's own Go values, serialised clients get dicts.
+func histRender(req wamp.ID) MetaRender {
+	return func(b *Binder, r *wamp.Result) string {
+		var parts []string
+		for _, a := range r.Arguments {
+			var pub wamp.ID
+			var args wamp.List
+			var kw wamp.Dict
+			topic := ""
+			if d, ok := wamp.AsDict(a); ok {
+				get := func(keys ...string) any {
+					for _, k := range keys {
+						if v, ok := d[k]; ok {
+							return v
+						}
+					}
+					return nil
+				}
+				pub, _ = wamp.AsID(get("Publication", "publication"))
+				args, _ = wamp.AsList(get("Arguments", "arguments", "args"))
+				kw, _ = wamp.AsDict(get("ArgumentsKw", "argumentskw", "kwargs"))
+				if det, ok := wamp.AsDict(get("Details", "details")); ok {
+					topic, _ = wamp.AsString(det["topic"])
+				}
+			} else {
+				v := reflect.ValueOf(a)
+				if v.Kind() == reflect.Struct {
+					if f := v.FieldByName("Publication"); f.IsValid() {
+						pub = wamp.ID(f.Uint())
+					}
+					if f := v.FieldByName("Arguments"); f.IsValid() && f.CanInterface() {
+						args, _ = f.Interface().(wamp.List)
+					}
+					if f := v.FieldByName("ArgumentsKw"); f.IsValid() && f.CanInterface() {
+						kw, _ = f.Interface().(wamp.Dict)
+					}
+					if f := v.FieldByName("Details"); f.IsValid() && f.CanInterface() {
+						if det, ok := f.Interface().(wamp.Dict); ok {
+							topic, _ = wamp.AsString(det["topic"])
+						}
+					}
+				}
+			}
+			p := fmt.Sprintf("P?%d", pub)
+			if s, ok := b.pub[pub]; ok {
+				p = symP(s)
+				if topic == "" {
+					topic = b.pubTopic[s] // an exact subscription's events need not repeat the topic
+				}
+			}
+			parts = append(parts, fmt.Sprintf("%s:%s:%s", p, topic, payload(args, kw)))
+		}
+		return fmt.Sprintf("META(%d,events:[%s])", req, strings.Join(parts, " "))
+	}
 }
